@@ -18,7 +18,7 @@ RULE = (
     "strings, None, complex; n_points from -2..300 plus bool/float/None/str; both continuous grid classes. Oracle: "
     "construction raises GridInitializationError, or to_jax() is a 1-D array of exactly n_points finite, strictly "
     "increasing values, first = start (1e-12 rel), last = stop for n>=2, constant first differences (linear) / "
-    "constant ratios (log) within 1e-9 relative (1e-6 when a bound is a bool, which JAX treats as a non-floating type); any other exception is a violation. The spacing clauses are judged "
+    "constant ratios (log) within 1e-9 relative; any other exception is a violation. The spacing clauses are judged "
     "only where the spacing is representable ((stop-start)/(n-1) >= 2**-40 * max(|start|,|stop|)). Discrete grids: "
     "random category classes (dataclasses with int/float/bool/str/None/missing defaults, permuted and duplicated "
     "codes, non-dataclasses, zero fields): accepted exactly when the class is a dataclass with >=1 field whose "
@@ -152,8 +152,8 @@ def check_cont(case):
     n_i = int(n)
     af, bf = float(a), float(b)
     # a bool bound makes JAX work in float32 (bool is not a floating type): float32 accuracy
-    f32 = isinstance(a, bool) or isinstance(b, bool)
-    etol = 1e-6 if f32 else 1e-12
+    f32 = False
+    etol = 1e-5 if f32 else 1e-12
     if arr.ndim != 1 or arr.shape[0] != n_i:
         msgs.append(f"{desc}: array form has shape {arr.shape}, expected ({n_i},)")
     elif not np.isfinite(arr).all():
@@ -187,6 +187,10 @@ def check_cont(case):
                     if not (np.abs(r - ratio) <= rtol * ratio).all():
                         msgs.append(f"{desc}: ratios are not constant: {r[:4].tolist()} vs {ratio}")
                         bucket = "spacing"
+    if msgs and (isinstance(a, bool) or isinstance(b, bool)):
+        # known finding K7c is identified by this predicate: a bool bound makes JAX work in
+        # float32 (jnp.log / jnp.linspace promote bool to float32 even with x64 enabled)
+        return msgs, n_i >= 3, "accepted", "bool_bound"
     if msgs and n_i >= 1:
         # known finding K7b is identified by this predicate: some exact nonzero node of the grid
         # has magnitude below 1e-300, so that the arithmetic touches the subnormal range, which
@@ -202,7 +206,7 @@ def check_cont(case):
                 exact = [math.exp(la + i * ((lb - la) / (n_i - 1))) for i in range(n_i)]
         except (ValueError, OverflowError, ZeroDivisionError):
             exact = []
-        if any(0 < abs(x) < 1e-300 for x in exact):
+        if any(0 < abs(x) < 1e-300 for x in [*exact, af, bf]):
             bucket = "subnormal_nodes"
     return msgs, n_i >= 3, "accepted", bucket
 
